@@ -20,7 +20,8 @@ TIE_THEOREMS = {"Univers.Text.GenRelationThm": ["Univers.Gen.Text.deb_split_eq",
                                                 "Univers.Gen.Text.deb_from_natives_eq", "Univers.Gen.Text.deb_from_native_eq",
                                                 "Univers.Gen.Text.rpm_build_constraint_eq", "Univers.Gen.Text.rpm_from_natives_eq",
                                                 "Univers.Gen.Text.rpm_from_native_eq"],
-                "Univers.Text.GenSplitReqThm": ["Univers.Gen.Text.py_split_req_eq"]}
+                "Univers.Text.GenSplitReqThm": ["Univers.Gen.Text.py_split_req_eq"],
+                "Univers.Text.GenAdvisoryExact": ["Univers.Gen.Text.py_deb_exact", "Univers.Gen.Text.py_rpm_exact"]}
 THEOREMS = {
     "Univers.Text.NpmThm": ["Univers.Text.Npm." + n for n in (
         "npm_exact", "npm_caret_exact", "npm_tilde_exact", "npm_xrange_exact", "npm_hyphen_exact", "npm_comparators_exact")],
